@@ -16,7 +16,7 @@ import mirlib
 import mirparse as mp
 import mirsym as ms
 import z3
-from vcommon import Outcome, Findings, build_cli, run_cli, new_replay_dir, tier, crashed
+from vcommon import REPO, Outcome, Findings, build_cli, run_cli, new_replay_dir, tier, crashed
 
 OK, REJECT = 0, 1
 # name: (files, expected verdict, checks on the document)
@@ -35,6 +35,12 @@ PROGRAMS = {
     "same-shape-in-two-modules": ({"main.oal": 'use "trees.oal" as t;\nuse "chains.oal" as c;\nres /t on get -> <t.tree>;\nres /c on get -> <c.chain>;\n',
                                    "trees.oal": "let tree = { 'id int, 'kids [tree] };\n", "chains.oal": "let chain = { 'id str, 'rest [chain] };\n"},
                                   OK, {"components": 2, "distinct_instantiations": ("id", ["integer", "string"])}),
+    # a reference that closes the cycle comes after an inline rec of the same declaration
+    "cycle-closed-after-an-inline-rec": ({"main.oal": "let list = { 'payload (rec t { 'children [t] }), 'next? list };\nres /lists on get -> <list>;\n"}, OK, {"min_components": 2}),
+    "mutual-cycle-closed-after-an-inline-rec": ({"main.oal": "let a = { 'r (rec x { 'k? x }), 'b? b };\nlet b = { 'a? a, 'self? b };\nres / on get -> <a> :: <status=404, b>;\n"}, OK, {"min_components": 3}),
+    # a rec directly inside a rec, in a function applied twice: four components, none shared
+    "nested-rec-in-function-applied-twice": ({"main.oal": "let tree x = rec node { 'value x, 'children [node], 'meta rec m { 'of x, 'parent? m } };\nres /ints on get -> <tree int>;\nres /strs on get -> <tree str>;\n"},
+                                             OK, {"components": 4, "distinct_by": [("of", ["integer", "string"]), ("value", ["integer", "string"])]}),
     "function-cycle": ({"main.oal": "let f x = g x;\nlet g x = f x;\nres / on get -> <f num>;\n"}, REJECT, {}),
     "content-cycle": ({"main.oal": "let c = <c>;\nres / on get -> c;\n"}, REJECT, {}),
     "alias-cycle": ({"main.oal": "let a = b;\nlet b = a;\nres / on get -> <a>;\n"}, REJECT, {}),
@@ -95,6 +101,14 @@ def run_programs(rdir):
             probs.append("%s: %d components, expected at least %d" % (name, len(comps), chk["min_components"]))
         if "names" in chk and sorted(comps) != sorted(chk["names"]):
             probs.append("%s: components %s, expected %s" % (name, sorted(comps), chk["names"]))
+        for prop, types in chk.get("distinct_by", []):
+            seen = {}
+            for cn, cs in comps.items():
+                t = ((cs.get("properties") or {}).get(prop) or {}).get("type")
+                seen.setdefault(t, []).append(cn)
+            for t in types:
+                if len(seen.get(t, [])) != 1:
+                    probs.append("%s: instantiation with '%s: %s' has %d components (two instantiations must not share a component, one must not be duplicated)" % (name, prop, t, len(seen.get(t, []))))
         if "distinct_instantiations" in chk:
             prop, types = chk["distinct_instantiations"]
             seen = {}
@@ -442,6 +456,44 @@ def check():
         if p.kind == "return" and fld is not None:
             structural("Context::new: the scope counter starts at zero in every evaluation", ms.proj(p.ret, ("f", fld), E) == ms.C("int", 0))
 
+    # every scope on the evaluator's stack got its identifier from push_scope (component names of recs hash the
+    # identifier of the innermost scope: a scope pushed with a constant identifier is shared by all instantiations)
+    sfld = None
+    srcv = open(os.path.join(REPO, "oal-compiler/src/eval.rs")).read()
+    mctx = re.search(r"pub struct Context<[^>]*>\s*\{(.*?)\n\}", srcv, re.S)
+    if mctx:
+        cf = re.findall(r"^\s*(?:pub(?:\(\w+\))?\s+)?(\w+)\s*:", mctx.group(1), re.M)
+        sfld = cf.index("scopes") if "scopes" in cf else None
+    if sfld is None:
+        o.inconc("eval::Context: field `scopes` not found")
+    else:
+        pushers = []
+        for f in M.funcs:
+            if not f.args or "eval::Context" not in f.args[0][1]:
+                continue
+            for b in f.blocks.values():
+                if b.cleanup or not b.term:
+                    continue
+                _, pt = mp.stmts_of(b)
+                if pt[0] != "call":
+                    continue
+                callee, args = pt[2], pt[3]
+                if re.search(r"Vec::<.*>::(push|insert|extend|append)", callee) and args and args[0][0] in ("move", "copy") and args[0][1][0] == "place" and not args[0][1][2]:
+                    recv = args[0][1][1]
+                    # the receiver is a reference to ((*_1).scopes)
+                    for bb in f.blocks.values():
+                        for st in mp.stmts_of(bb)[0]:
+                            if st[0] == "assign" and st[1] == ("place", recv, ()) and st[2][0] in ("refmut", "ref") and st[2][1][0] == "place" and st[2][1][1] == 1 and \
+                                    len(st[2][1][2]) == 2 and st[2][1][2][0] == ("deref",) and st[2][1][2][1][:2] == ("f", sfld):
+                                pushers.append(f.short)
+        o.extra["scope_stack_pushers"] = sorted(set(pushers))
+        structural("Context: scopes are pushed by push_scope only, so every scope has a fresh identifier", bool(pushers) and set(pushers) <= {"eval::push_scope"})
+
+    # the definition graph cycles_check works on: while a declaration is being resolved it is the graph's current node
+    # from its start to its end - a rec inside it neither opens nor closes a node - so every reference inside a
+    # declaration, wherever it stands, becomes an edge
+    graph_lemmas(o, L, S, M, E, structural, on_sat)
+
     o.samples = [{"query": q["name"], "verdict": q["verdict"]} for q in o.queries[:16]]
     rdir = new_replay_dir("C09", "recursion")
     probs, detail = run_programs(rdir)
@@ -456,6 +508,95 @@ def check():
     elif probs:
         o.oracle_only("real oal-cli deviates (%s) although every lemma holds" % "; ".join(probs[:3]), rdir)
     return o.finish()
+
+
+def graph_lemmas(o, L, S, M, E, structural, on_sat):
+    try:
+        f_resolve = M.one(r"^(resolve::)?resolve$")
+    except KeyError as ex:
+        o.inconc("MIR: %s" % str(ex)[-200:])
+        return
+    o.functions.append(mirlib.func_ref(f_resolve, "oal-compiler"))
+    ex = mirlib.executor([M], max_paths=12000, inline=[r"(^|::)(open_declaration|close_declaration|open_recursion|close_recursion|define_variable)$"])
+    outs = ex.run(f_resolve, arg_names=["mods", "loc"])
+    mirlib.check_translator(o, ex, "resolve (graph builder)")
+    iS = E.index("NodeCursor", "Start")
+    seen = {"open": 0, "close": 0, "connect": 0, "plain": 0}
+    ret_ok = False
+    for p in outs:
+        if p.kind == "return" and p.ret[0] == "variant" and p.ret[2] == "Ok":
+            ret_ok = ret_ok or any(e[1] == "Builder::graph" and e[3] == p.ret[3][0] for e in p.calls())
+        ev = p.events
+        loops = [i for i, e in enumerate(ev) if e[0] == "loop"]
+        if p.kind != "backedge" or not loops or "NodeRef::traverse" not in [e[1] for e in p.calls()]:
+            continue
+        # the traversal loop is the first loop entered after NodeRef::traverse (open_declaration has a loop of its own)
+        i_tr = [i for i, e in enumerate(ev) if e[0] == "call" and e[1] == "NodeRef::traverse"][0]
+        after = [i for i in loops if i > i_tr]
+        if not after:
+            continue
+        tail = [e for e in ev[after[0] + 1:] if e[0] == "call"]
+        nxs = [e for e in tail if e[1].endswith("Iterator::next")]
+        if not nxs:
+            continue
+        item = ms.proj(ms.proj(nxs[0][3], ("v", "Some"), E), ("f", 0), E)
+        isStart = S.i(ms.disc_of(item, E)) == iS
+        casts = {}
+        for e in tail:
+            m = re.match(r"^(Declaration|Variable|Recursion)\.AbstractSyntaxNode::cast$", e[1])
+            if m and m.group(1) not in casts:
+                casts[m.group(1)] = S.i(ms.disc_of(e[3], E)) == 1
+        F_ = z3.BoolVal(False)
+        dS, vS = casts.get("Declaration", F_), casts.get("Variable", F_)
+        cond = S.pc(p.pc)
+        n_open = len([e for e in tail if e[1] == "Builder::open"])
+        n_close = len([e for e in tail if e[1] == "Builder::close"])
+        n_conn = len([e for e in tail if e[1] == "Builder::connect"])
+        if n_open > 1 or n_close > 1 or n_conn > 1:
+            structural("resolve: at most one graph operation per tree event", False)
+            continue
+        if n_open:
+            seen["open"] += 1
+            L.expect_unsat("resolve: a graph node is opened only when a declaration is entered", cond + [z3.Not(z3.And(isStart, dS))], on_sat)
+        else:
+            L.expect_unsat("resolve: entering a declaration always opens its graph node", cond + [z3.And(isStart, dS)], on_sat)
+        if n_close:
+            seen["close"] += 1
+            L.expect_unsat("resolve: the current graph node is closed only when a declaration is left (not at the end of a rec inside it)", cond + [z3.Not(z3.And(z3.Not(isStart), dS))], on_sat)
+        else:
+            L.expect_unsat("resolve: leaving a declaration always closes its graph node", cond + [z3.And(z3.Not(isStart), dS)], on_sat)
+        if n_conn:
+            seen["connect"] += 1
+            L.expect_unsat("resolve: an edge is recorded only for a variable", cond + [z3.Not(z3.And(isStart, z3.Not(dS), vS))], on_sat)
+            e = [x for x in tail if x[1] == "Builder::connect"][0]
+            lk = [x for x in tail if x[1] == "Env::lookup"]
+            structural("resolve: the edge goes to the definition the variable was resolved to", len(lk) == 1 and any(t == lk[0][3] for a in e[2] for t in ms.subterms(a)))
+        if not (n_open or n_close or n_conn):
+            seen["plain"] += 1
+    o.extra["resolve_graph_paths"] = seen
+    structural("resolve: answers the graph of the builder the traversal fed", ret_ok)
+    if min(seen.values()) == 0:
+        o.inconc("resolve (graph builder): a role has no path (%s)" % seen)
+    # Builder: connect records an edge from the current node; open / close set and clear it
+    try:
+        f_conn = M.sel("resolve", "connect", arg0=r"&mut .*Builder")
+        f_open = M.sel("resolve", "open", arg0=r"&mut .*Builder")
+        f_close = M.sel("resolve", "close", arg0=r"&mut .*Builder")
+    except Exception as ex:
+        o.inconc("MIR: %s" % str(ex)[-200:])
+        return
+    o.functions += [mirlib.func_ref(f, "oal-compiler") for f in (f_conn, f_open, f_close)]
+    exb = mirlib.executor([M])
+    n_edge = n_skip = 0
+    for p in exb.run(f_conn, arg_names=["self", "to"]):
+        if p.kind != "return":
+            continue
+        edges = [e for e in p.calls() if re.search(r"(add_edge|update_edge)$", e[1])]
+        if edges:
+            n_edge += 1
+        else:
+            n_skip += 1
+    structural("Builder::connect: records an edge on one path and does nothing on another (no current node)", n_edge >= 1 and n_skip >= 1)
 
 
 def replay(path):
